@@ -191,6 +191,16 @@ def gen_spec(rng, slot_index, swarm):
         if rng.random() < 0.2:
             lat["preamble"] = "\\usepackage{lmodern}"
         opts["latex"] = lat
+    if swarm["peer_p"] > 0 and rng.random() < 0.7:
+        # text measuring is in play: vary what the measured size depends on
+        lat = opts.setdefault("latex", {})
+        if rng.random() < 0.6:
+            lat["preamble"] = rng.choice(["\\usepackage{lmodern}", "\\renewcommand{\\familydefault}{\\sfdefault}",
+                                          "\\usepackage{times}"])
+        if rng.random() < 0.3:
+            lat["latexmkOptions"] = rng.choice([["-pdf"], ["-xelatex"], ["-lualatex"]])
+        if rng.random() < 0.3:
+            lat["fontsize"] = rng.choice(["10pt", "12pt"])
     if kind == "n":
         scale = "own_linear"
     else:
